@@ -6,6 +6,7 @@ CONSTANTS Producers = {"p1", "p2", "p3"}
           SafeEnv = TRUE
           Locks = TRUE
           RealTime = FALSE
+          Disconnect = TRUE
           NMsgs = 1
           ScriptSet = {"quit", "reset", "dtor", "cycle"}
           Script2Set = {"none", "reset"}
